@@ -451,11 +451,21 @@ func cmdCheck(args []string) int {
 	as = append(as, standingAssumptions...)
 	sort.Strings(as)
 	sort.Strings(fnames)
+	// obligations of this property's contracts that the baseline run could not discharge: generated, not claimed, not counted
+	var notClaimed []string
+	for _, e := range base.Obligations {
+		if e.Status != "proved" && hasTag(e.Tags, prop) {
+			if _, kf := knownByObl[e.Name]; !kf {
+				notClaimed = append(notClaimed, e.Name+" :: "+e.Clause)
+			}
+		}
+	}
+	sort.Strings(notClaimed)
 	ev := Evidence{PropertyID: prop, Tier: *tier, Seed: seed, Level: "proof", WallS: round2(time.Since(t0).Seconds()), Violations: violations, Assumptions: as}
 	ev.Coverage = map[string]any{
 		"obligations":              nObl,
 		"discharged":               discharged,
-		"checker_cmd":              fmt.Sprintf("/verif/bin/sctpvc check %s --tier %s  (VCs from go/ssa of /repo -tags verif; solvers z3 4.8.12, z3-new 5.1.0, cvc5 1.0.3, %ds each, first definite answer)", prop, timeout),
+		"checker_cmd":              fmt.Sprintf("/verif/bin/sctpvc check %s --tier %s  (VCs from go/ssa of /repo -tags verif; solvers z3 4.8.12, z3-new 5.1.0, cvc5 1.0.3, %ds each, first definite answer)", prop, *tier, timeout),
 		"trusted_base":             trustedBase,
 		"samples":                  samples,
 		"by_backend":               byBackend,
@@ -464,6 +474,7 @@ func cmdCheck(args []string) int {
 		"bounded":                  []string{},
 		"known_findings":           knownOut,
 		"undecided":                anchorLost,
+		"unproved_not_claimed":     notClaimed,
 	}
 	evDir := envOr("SCTPVC_EVIDENCE_DIR", filepath.Join(verifRoot, "evidence"))
 	os.MkdirAll(evDir, 0o755)
